@@ -111,7 +111,7 @@ def run(res, tier, replay):
         for m_ in fo.members:
             if m_.data is not None: m_.length = len(m_.data)
         fo.prepare(r14); cabs_, names_ = _cf.build_set([fo], [(0, 1, 5000)], r14, names=[b"e1.cab", b"e2.cab"])
-        # (one file per part: joining two cabinets of ONE search() result and closing the list is the recorded finding of C02)
+        # (one file per part; two cabinets of ONE search() result joined with each other are C02's directed scenario)
         sc = scenario.Scn().file("in0.cab", filler(r14, 700) + cabs_[0] + filler(r14, 50)).file("in1.cab", filler(r14, 333 + di) + cabs_[1] + filler(r14, 50))
         sc.op("cab_new").op("cab_param", 0, [7, 32768][di % 2]).op("cab_search", "c0", "in0.cab").op("cab_search", "c1", "in1.cab").op("cab_append", "c0", "c1")
         for mi in range(3): sc.op("cab_extract", "c0", mi, "out%d" % mi, 0)
